@@ -82,13 +82,19 @@ func wrapTerm(t types.Type, e *term) value {
 	return &sym{e}
 }
 
+// opaqueFloat is a floating-point value derived from a symbolic integer.
+// Arithmetic on it stays opaque; any use that would need its value
+// (comparison, conversion to an integer, branching) ends the path as
+// unsupported:float.
+type opaqueFloat struct{}
+
 func hasSym(x, y value) bool {
 	switch x.(type) {
-	case *sym, sstr:
+	case *sym, sstr, opaqueFloat:
 		return true
 	}
 	switch y.(type) {
-	case *sym, sstr:
+	case *sym, sstr, opaqueFloat:
 		return true
 	}
 	return false
@@ -97,6 +103,12 @@ func hasSym(x, y value) bool {
 // symBinop implements binary operators when at least one operand is symbolic.
 // t is the static type of x (and of y except for shifts).
 func symBinop(i *interpreter, op token.Token, t, ty types.Type, x, y value) value {
+	if _, ok := x.(opaqueFloat); ok {
+		return opaqueArith(op)
+	}
+	if _, ok := y.(opaqueFloat); ok {
+		return opaqueArith(op)
+	}
 	// strings
 	if isStr(x) || isStr(y) {
 		a, b := strBytes(x), strBytes(y)
@@ -224,6 +236,14 @@ func symBinop(i *interpreter, op token.Token, t, ty types.Type, x, y value) valu
 	panic(unsupported{"symbolic binop " + op.String()})
 }
 
+func opaqueArith(op token.Token) value {
+	switch op {
+	case token.ADD, token.SUB, token.MUL, token.QUO:
+		return opaqueFloat{}
+	}
+	panic(unsupported{"float: comparison of a value derived from a symbolic integer"})
+}
+
 func isStr(v value) bool {
 	switch v.(type) {
 	case string, sstr:
@@ -257,7 +277,9 @@ func symConv(tDst, tSrc types.Type, x *sym) value {
 	sw, ssigned, sok := basicInfo(tSrc)
 	if !dok || !sok {
 		if b, ok := tDst.Underlying().(*types.Basic); ok && b.Info()&types.IsFloat != 0 {
-			panic(unsupported{"float: conversion of a symbolic integer to floating point"})
+			// not modelled: the result is an opaque float that may be passed
+			// around and fed to stubs, but never compared or converted back
+			return opaqueFloat{}
 		}
 		if b, ok := tDst.Underlying().(*types.Basic); ok && b.Kind() == types.String {
 			panic(unsupported{"conversion of symbolic integer to string"})
